@@ -689,6 +689,9 @@ class AnalyticTherm:
         q.shuffle(self.order)                            # order of the composition sets: not the database order
         self.mu0 = [q.uniform(-8e4, -2e4) for _ in range(E)]
 
+    def clearCache(self):          # DiffusionModel.reset() / setup() call it
+        pass
+
     def getEq(self, x, T, gExtra=0, precPhase=None):
         self.ncalls += 1
         x = [float(v) for v in np.atleast_1d(x)]
@@ -1112,6 +1115,706 @@ def shipped_purity_specs(ctx):
     specs = [dict(kind='shipped', elements=['NI', 'CR'], phases=['FCC_A1', 'BCC_A2'], nomob=[], seed=0),
              dict(kind='shipped', elements=['NI', 'CR', 'AL'], phases=['FCC_A1', 'BCC_A2'], nomob=[], seed=0)]
     return specs
+
+
+# ------------------------------------------------------------------ several model objects and their parameter objects
+# Histories over 2-3 HomogenizationModel objects (built without parameters, with their own HomogenizationParameters object, or with
+# an object the user hands to two of them), setter calls on one model interleaved with evaluations of the others.  ORACLES on the
+# implementation: (own settings) every evaluation of a model is the by-name scalar reference under the settings made on ITS parameters
+# object (bookkeeping of the harness: object identity -> settings; theorem isolation / isolation_default); (frame) an operation that is
+# not addressed to a model leaves everything reachable from that model unchanged; (identity) two models hold the same parameters object
+# iff the user passed the same object, and no other mutable object is reachable from two models; (again) a model asked again with
+# nothing addressed to it in between answers bit-identically (mobilities and fluxes); (fresh) a fresh model given exactly the calls
+# addressed to A answers as A does.  CORRESPONDENCE: every evaluation and the store at the end against Homog.runM.
+DEFAULT_EPS = 0.05
+RULE_STRINGS = {0: ['wiener upper', 'upper wiener'], 1: ['wiener lower', 'lower wiener'], 2: ['hashin upper', 'upper hashin'],
+                3: ['hashin lower', 'lower hashin'], 4: ['lab', 'labyrinth']}
+RULE_FUNCS = {'wienerUpper': 0, 'wienerLower': 1, 'hashinShtrikmanUpper': 2, 'hashinShtrikmanLower': 3, 'labyrinth': 4}
+POST_FUNCS = {'_postProcessDoNothing': 'none', '_postProcessPredefinedMatrixPhase': 'predefined', '_postProcessMajorityPhase': 'majority',
+              '_postProcessExcludePhases': 'exclude'}
+_IMMUTABLE = (type(None), bool, int, float, complex, str, bytes, frozenset, range, type, np.generic)
+
+
+def _is_code(o):
+    import types
+    return isinstance(o, (types.FunctionType, types.BuiltinFunctionType, types.MethodType, types.ModuleType, type, np.ufunc)) or \
+        (callable(o) and not hasattr(o, '__dict__'))
+
+
+def snap(o, skip=(), depth=0):
+    """value snapshot of everything reachable from o (objects of kawin, containers, arrays): equal snapshots = same state"""
+    if id(o) in skip:
+        return ('user-shared',)
+    if isinstance(o, float) or isinstance(o, np.floating):
+        return repr(float(o))
+    if isinstance(o, _IMMUTABLE):
+        return repr(o) if isinstance(o, np.generic) else o
+    if depth > 7:
+        return ('deep',)
+    if isinstance(o, np.ndarray):
+        if o.dtype == object:
+            return ('array', o.shape, tuple(snap(v, skip, depth + 1) for v in o.ravel()))
+        return ('array', o.shape, o.dtype.str, o.tobytes())
+    if isinstance(o, dict):
+        return ('dict', tuple((repr(k), snap(v, skip, depth + 1)) for k, v in o.items()))
+    if isinstance(o, (list, tuple)):
+        return (type(o).__name__, tuple(snap(v, skip, depth + 1) for v in o))
+    if isinstance(o, (set,)):
+        return ('set', tuple(sorted(repr(v) for v in o)))
+    if _is_code(o):
+        return ('code', getattr(o, '__module__', None), getattr(o, '__qualname__', type(o).__name__))
+    if hasattr(o, '__dict__'):
+        return ('obj', type(o).__qualname__, tuple((k, snap(v, skip, depth + 1)) for k, v in sorted(vars(o).items())))
+    return ('opaque', type(o).__qualname__)
+
+
+def snap_diff(a, b, path=''):
+    """path of the first difference between two snapshots (None: equal)"""
+    if a == b:
+        return None
+    if isinstance(a, tuple) and isinstance(b, tuple) and a and b and a[0] == b[0] and len(a) == len(b):
+        if a[0] == 'obj' and a[1] == b[1] and len(a[2]) == len(b[2]):
+            for (ka, va), (kb, vb) in zip(a[2], b[2]):
+                if ka != kb:
+                    return path or '.'
+                d = snap_diff(va, vb, (path + '.' if path else '') + ka)
+                if d:
+                    return d
+        if a[0] in ('list', 'tuple') and len(a[1]) == len(b[1]):
+            for va, vb in zip(a[1], b[1]):
+                d = snap_diff(va, vb, path)
+                if d:
+                    return d
+    return path or '.'
+
+
+def mutable_ids(o, skip=(), path='', depth=0, out=None):
+    """id -> attribute path of every MUTABLE object reachable from o (instances, dict, list, set, arrays)"""
+    out = {} if out is None else out
+    if isinstance(o, _IMMUTABLE) or _is_code(o) or id(o) in skip or depth > 5 or id(o) in out:
+        return out
+    if isinstance(o, tuple):
+        for v in o:
+            mutable_ids(v, skip, path, depth + 1, out)
+        return out
+    out[id(o)] = path or '.'
+    if isinstance(o, dict):
+        for k, v in o.items():
+            mutable_ids(v, skip, '%s[%r]' % (path, k), depth + 1, out)
+    elif isinstance(o, (list, set)):
+        for v in o:
+            mutable_ids(v, skip, path + '[]', depth + 1, out)
+    elif isinstance(o, np.ndarray):
+        if o.base is not None and isinstance(o.base, np.ndarray):
+            out.setdefault(id(o.base), path + '.base')
+    elif hasattr(o, '__dict__'):
+        for k, v in vars(o).items():
+            mutable_ids(v, skip, (path + '.' if path else '') + k, depth + 1, out)
+    return out
+
+
+def shared_mutables(a, b, skip=()):
+    """attribute paths (in a) of mutable objects reachable from both a and b, outermost first"""
+    ia, ib = mutable_ids(a, skip), mutable_ids(b, skip)
+    paths = sorted((p for i, p in ia.items() if i in ib and i != id(a)), key=lambda p: (p.count('.') + p.count('['), p))
+    tops = []
+    for p in paths:
+        if not any(p.startswith(t + '.') or p.startswith(t + '[') for t in tops):
+            tops.append(p)
+    return tops
+
+
+def gen_setting(r, db):
+    k = r.random()
+    if k < 0.35:
+        return ['rule', r.choice([0, 1, 2, 3, 3, 4, 4]), r.choice(['str0', 'str1', 'int'])]
+    if k < 0.55:
+        return ['factor', r.choice([-1.0, 0.5, 1.0, 1.5, 2.0, 2.0, 3.0, 7.5, r.uniform(1, 2)])]
+    if k < 0.9:
+        kind, arg = gen_post(r, db, db)
+        return ['post', kind, arg]
+    return ['eps', round(r.uniform(0.0, 0.2), 3)]
+
+
+def gen_objects_case(r):
+    spec = gen_therm_spec(r)
+    E = len(spec['elements'])
+    db = list(spec['phases'])
+    T0 = r.choice([900.0, 1073.15, 1200.5, round(r.uniform(800, 1500), 1)])
+    ops = []
+    pids = []            # per parameters object: 'explicit' | 'default'
+    models = []          # pid per model
+
+    def new_params():
+        req, via = gen_factor(r)
+        kind, arg = gen_post(r, db, db)
+        ops.append(['params', dict(rule=r.randrange(5), n=(float(np.clip(req, 1, 2)) if via else req), post=[kind, arg]), round(r.uniform(0.0, 0.2), 3)])
+        pids.append('explicit')
+        return len(pids) - 1
+
+    def new_model():
+        k = r.random()
+        if k < 0.6 or (k >= 0.8 and not pids):
+            arg = None
+            pids.append('default'); models.append(len(pids) - 1)
+        elif k < 0.8:
+            arg = new_params(); models.append(arg)
+        else:
+            expl = [i for i, kd in enumerate(pids) if kd == 'explicit']
+            arg = r.choice(expl) if expl and r.random() < 0.8 else r.randrange(len(pids))   # sometimes the object of a default-built model, handed on
+            models.append(arg)
+        N = r.randint(3, 5)
+        prof = []
+        for j in range(E - 1):
+            hi = 0.8 / (E - 1)
+            a = r.uniform(0.03, hi); b = r.uniform(0.03, hi)
+            if j == 0 and abs(a - b) < 0.03 * N:
+                a, b = 0.04, min(hi, 0.04 + 0.04 * N + r.uniform(0, 0.1))
+                if r.random() < 0.5:
+                    a, b = b, a
+            prof.append([round(a, 4), round(b, 4)])
+        ops.append(['model', arg, N, prof, T0 + r.choice([0.0, 0.0, 25.0, -40.0])])
+
+    if r.random() < 0.4:
+        new_params()
+    new_model()
+    for step in range(r.randint(8, 14)):
+        k = r.random()
+        if (len(models) < 2 and step >= 2) or (len(models) < 3 and k < 0.2):
+            new_model()
+        elif k < 0.5:
+            ops.append(['set', r.randrange(len(models)), gen_setting(r, db)])
+        elif k < 0.57 and pids:
+            ops.append(['setP', r.randrange(len(pids)), gen_setting(r, db)])
+        elif k < 0.67:
+            mid = r.randrange(len(models))
+            what = r.choice(['bc', 'temperature', 'constraints', 'hash', 'clear', 'cache'])
+            val = {'bc': r.choice([1e-10, -3e-10, 2e-9]), 'temperature': T0 + r.choice([-60.0, 15.0, 80.0]), 'constraints': r.choice([0.001, 0.004]),
+                   'hash': r.choice([3, 5, 6]), 'clear': 0, 'cache': r.random() < 0.5}[what]
+            ops.append(['other', mid, what, val])
+        else:
+            ops.append(['eval', r.randrange(len(models)), r.choice(['fluxes', 'fluxes', 'direct'])])
+    order = list(range(len(models)))
+    r.shuffle(order)
+    for mid in order:
+        ops.append(['eval', mid, r.choice(['fluxes', 'direct'])])
+    return dict(kind='objects', therm=spec, db=db, ops=ops)
+
+
+def norm_objects_case(c):
+    """after a JSON round trip: nothing to rebuild except that post arguments stay lists"""
+    return c
+
+
+def _capture_raised(e):
+    tb = traceback.format_exc()
+    if not vlib.in_repo_traceback(tb):
+        raise e
+    rr = Raised(type(e).__name__)
+    sites = [l.strip() for l in tb.splitlines() if l.strip().startswith('File "%s' % vlib.REPO)]
+    rr.site = sites[-1] if sites else None
+    rr.msg = str(e)[:200]
+    return rr
+
+
+def apply_setting_impl(target, s, via_model):
+    """one setter call: on the model (its public setters) or on the parameters object itself"""
+    k = s[0]
+    if k == 'rule':
+        arg = s[1] if s[2] == 'int' else RULE_STRINGS[s[1]][int(s[2][-1])]
+        (target.setMobilityFunction if via_model else target.setHomogenizationFunction)(arg)
+    elif k == 'factor':
+        target.setLabyrinthFactor(s[1])
+    elif k == 'post':
+        arg = list(s[2]) if isinstance(s[2], list) else s[2]
+        (target.setMobilityPostProcessFunction if via_model else target.setPostProcessFunction)(s[1], arg)
+    elif k == 'eps':
+        if via_model:
+            target.setIdealEps(s[1])
+        else:
+            target.eps = s[1]
+
+
+def apply_setting_ref(o, s):
+    k = s[0]
+    if k == 'rule':
+        o['rule'] = s[1]
+    elif k == 'factor':
+        o['n'] = float(min(max(s[1], 1.0), 2.0))
+    elif k == 'post':
+        o['post'] = (s[1], s[2])
+    elif k == 'eps':
+        o['eps'] = s[1]
+
+
+def apply_other(m, what, val):
+    from kawin.diffusion.DiffusionParameters import BoundaryConditions
+    if what == 'bc':
+        m.setBC(BoundaryConditions.FLUX_BC, val, BoundaryConditions.FLUX_BC, 0.0)
+    elif what == 'temperature':
+        m.setTemperature(val)
+    elif what == 'constraints':
+        m.constraints.maxCompositionChange = val
+    elif what == 'hash':
+        m.setHashSensitivity(val)
+    elif what == 'clear':
+        m.clearCache()
+    elif what == 'cache':
+        m.useCache(val)
+
+
+def build_model(th, spec, op, hp=None):
+    from kawin.diffusion import HomogenizationModel
+    _, arg, N, prof, T = op
+    kw = {} if hp is None else dict(homogenizationParameters=hp)
+    m = HomogenizationModel([-1e-4, 1e-4], N, list(spec['elements']), list(spec['phases']), thermodynamics=th, **kw)
+    for el, (a, b) in zip(spec['elements'][1:], prof):
+        m.setCompositionLinear(a, b, el)
+    m.setTemperature(T)
+    m.setup()
+    return m
+
+
+def model_eval(m, how):
+    """what the model evaluates: the homogenized mobilities handed to its flux computation (captured inside _getFluxes) and the
+    fluxes, or the public function on the model's own thermodynamics / parameters / table.  -> dict(rows, flux) or Raised"""
+    import kawin.diffusion.Homogenization as HM
+    from kawin.diffusion.HomogenizationParameters import computeHomogenizationFunction
+    try:
+        with np.errstate(all='ignore'), warnings.catch_warnings():
+            warnings.simplefilter('ignore')
+            if how == 'fluxes':
+                cap = []
+                real = HM.computeHomogenizationFunction
+
+                def wrap(*a, **k):
+                    out = real(*a, **k)
+                    cap.append(np.array(out[0], dtype=np.float64, copy=True))
+                    return out
+                HM.computeHomogenizationFunction = wrap
+                try:
+                    fl = m._getFluxes(m.t, [m.x])
+                finally:
+                    HM.computeHomogenizationFunction = real
+                rows = cap[0] if cap else None
+                return dict(rows=None if rows is None else np.reshape(rows, (m.N, -1)).tolist(), flux=np.array(fl, dtype=np.float64))
+            Ts = m.temperatureParameters(m.z, m.t)
+            rows, _ = computeHomogenizationFunction(m.therm, m.x.T, Ts, m.homogenizationParameters, m.hashTable)
+            return dict(rows=np.reshape(np.asarray(rows, dtype=np.float64), (m.N, -1)).tolist(), flux=None)
+    except Exception as e:      # noqa
+        return _capture_raised(e)
+
+
+def node_records(th, m):
+    """fresh records (no table) of the model's nodes at its current temperature"""
+    from kawin.diffusion.DiffusionParameters import computeMobility
+    Ts = m.temperatureParameters(m.z, m.t)
+    recs = []
+    for i in range(m.N):
+        x = [float(v) for v in m.x[:, i]]
+        with np.errstate(all='ignore'), warnings.catch_warnings():
+            warnings.simplefilter('ignore')
+            md = computeMobility(th, x[0] if len(x) == 1 else x, float(Ts[i]))
+        recs.append(([str(v) for v in md.phases[0]], from_arr(md.mobility[0]), [float(f) for f in md.phase_fractions[0]]))
+    return recs
+
+
+def same_answer(a, b):
+    if isinstance(a, str) or isinstance(b, str):
+        return isinstance(a, str) and isinstance(b, str) and a == b
+    if (a['rows'] is None) != (b['rows'] is None):
+        return False
+    if a['rows'] is not None and not np.array_equal(np.array(a['rows']), np.array(b['rows']), equal_nan=True):
+        return False
+    if a['flux'] is not None and b['flux'] is not None and not np.array_equal(a['flux'], b['flux'], equal_nan=True):
+        return False
+    return True
+
+
+def rows_match(rows, recs, db, cfg):
+    """the answer of one evaluation against the by-name scalar reference under settings cfg: True / False / None (outside)"""
+    cfg = dict(rule=cfg['rule'], n=cfg['n'], post=tuple(cfg['post']))
+    wants = [ref_eval(db, st, mob, fr, cfg) for st, mob, fr in recs]
+    err = next((w for w in wants if isinstance(w, str)), None)
+    if isinstance(rows, str) or err is not None:
+        return (isinstance(rows, str) and rows == err), wants
+    if rows is None:
+        return None, wants
+    ok = len(rows) == len(wants) and all(values_match(o, w, col_scale(mob, cfg['rule'])) for o, w, (_, mob, _) in zip(rows, wants, recs))
+    return ok, wants
+
+
+def settings_differ_visibly(rows_a, wants_b, recs, rule):
+    """does the reference under OTHER settings differ from the answer (so that 'follows the other settings' is decidable)?"""
+    if isinstance(wants_b, list) and any(isinstance(w, str) for w in wants_b):
+        return True
+    return not all(values_match(o, w, col_scale(mob, rule)) for o, w, (_, mob, _) in zip(rows_a, wants_b, recs))
+
+
+def run_objects(case, res):
+    """the history on the implementation with all direct oracles; returns what the correspondence needs"""
+    from kawin.diffusion.HomogenizationParameters import HomogenizationParameters
+    spec, db, ops = case['therm'], case['db'], case['ops']
+    desc = {k: v for k, v in case.items() if not k.startswith('_')}
+    th = AnalyticTherm(spec)
+    skip = {id(th)}
+    objs, ref_objs = [], []          # implementation objects in allocation order / the harness's own store: settings per object
+    models, ref_models, how_built = [], [], []
+    snaps = []                        # snapshot of each model after the last operation
+    last = {}                         # (mid, how) -> (version, answer)
+    version = []                      # per model: number of operations addressed to it or to its parameters object so far
+    evals = []                        # per eval op: (mid, records, rows or error)
+    addressed_ops = []                # per model: the operations addressed to it / its object (for the fresh replay)
+    nset_other = 0
+
+    def holders(pid):
+        return [i for i, q in enumerate(ref_models) if q == pid]
+
+    def kind_of(mid):
+        pid = ref_models[mid]
+        return 'default' if ref_objs[pid]['kind'] == 'default' and len(holders(pid)) == 1 and not ref_objs[pid]['touched'] else \
+            ('own-explicit' if len(holders(pid)) == 1 and not ref_objs[pid]['touched'] else 'user-shared')
+
+    def frame_check(k, op, touched_models, touched_pid):
+        """every model not addressed by the operation must be exactly as it was"""
+        for i, m in enumerate(models):
+            if i >= len(snaps):
+                snaps.append(snap(m, skip)); continue
+            new = snap(m, skip)
+            if i not in touched_models and new != snaps[i]:
+                path = snap_diff(snaps[i], new) or '?'
+                if touched_pid is not None and ref_models[i] == touched_pid and path.startswith('homogenizationParameters'):
+                    pass          # the user's own shared object
+                else:
+                    top = path.split('.')[0]
+                    res.violate('isolation:HomogenizationModel:state-of-%s-parameters-model-changed-by-%s-on-another-model:%s' % (
+                                    kind_of(i), op[0] if op[0] != 'other' else op[2], top),
+                                'operation %d (%s) was not addressed to model %d, but %s of model %d changed' % (k, op[:3], i, path, i),
+                                dict(desc, failing_op=k, model=i), path, 'unchanged')
+            snaps[i] = new
+
+    def identity_check(k):
+        for i in range(len(models)):
+            for j in range(i + 1, len(models)):
+                same = models[i].homogenizationParameters is models[j].homogenizationParameters
+                want = ref_models[i] == ref_models[j]
+                if same and not want:
+                    res.violate('shared-object:HomogenizationModel.homogenizationParameters:%s+%s' % (how_built[i], how_built[j]),
+                                'models %d and %d hold the SAME HomogenizationParameters object although the user did not pass one object to both' % (i, j),
+                                dict(desc, failing_op=k, models=[i, j]), 'same object', 'distinct objects')
+                elif want and not same:
+                    res.violate('explicit-parameters-object-not-held-by-reference:HomogenizationModel',
+                                'models %d and %d were given one HomogenizationParameters object but hold different ones' % (i, j),
+                                dict(desc, failing_op=k, models=[i, j]), 'distinct objects', 'same object')
+                allowed = set(skip)
+                if want:
+                    allowed.add(id(models[i].homogenizationParameters))
+                for path in shared_mutables(models[i], models[j], allowed):
+                    if path.startswith('homogenizationParameters') and same and not want:
+                        continue          # reported above
+                    res.violate('shared-mutable-object:HomogenizationModel.%s' % path.split('[')[0],
+                                'models %d and %d both reach the same mutable object at %s' % (i, j, path),
+                                dict(desc, failing_op=k, models=[i, j]), path, 'no shared mutable object')
+
+    for k, op in enumerate(ops):
+        tag = op[0]
+        touched, touched_pid = set(), None
+        if tag == 'params':
+            c = op[1]
+            hp = HomogenizationParameters(c['rule'], labyrinthFactor=c['n'], eps=op[2], postProcessFunction=c['post'][0],
+                                          postProcessArgs=(list(c['post'][1]) if isinstance(c['post'][1], list) else c['post'][1]))
+            objs.append(hp)
+            ref_objs.append(dict(rule=c['rule'], n=c['n'], post=(c['post'][0], c['post'][1]), eps=op[2], kind='explicit', touched=False))
+            res.count('objects:op:new-parameters')
+        elif tag == 'model':
+            arg = op[1]
+            m = build_model(th, spec, op, None if arg is None else objs[arg])
+            models.append(m)
+            hp = m.homogenizationParameters
+            idx = next((i for i, o in enumerate(objs) if o is hp), None)
+            if arg is None:
+                ref_objs.append(dict(rule=0, n=1, post=('none', None), eps=DEFAULT_EPS, kind='default', touched=False))
+                ref_models.append(len(ref_objs) - 1)
+                if idx is None:
+                    objs.append(hp)
+                else:
+                    objs.append(None)      # the model did not get an object of its own (reported by identity_check)
+                how_built.append('default')
+            else:
+                if ref_objs[arg]['kind'] == 'default' or holders(arg):
+                    ref_objs[arg]['touched'] = True
+                ref_models.append(arg)
+                how_built.append('explicit')
+            case.setdefault('_impl_models', []).append(idx if idx is not None else len(objs) - 1)
+            version.append(0); addressed_ops.append([])
+            touched = {len(models) - 1}
+            res.count('objects:op:new-model:' + ('default' if arg is None else ('shared' if len(holders(arg)) > 1 else 'own-explicit')))
+            identity_check(k)
+        elif tag in ('set', 'setP'):
+            if tag == 'set':
+                mid = op[1]; pid = ref_models[mid]
+                got = None
+                try:
+                    apply_setting_impl(models[mid], op[2], True)
+                except Exception as e:      # noqa
+                    got = _capture_raised(e)
+            else:
+                pid = op[1]
+                ref_objs[pid]['touched'] = True
+                got = None
+                try:
+                    if objs[pid] is not None:
+                        apply_setting_impl(objs[pid], op[2], False)
+                except Exception as e:      # noqa
+                    got = _capture_raised(e)
+            if got is not None:
+                res.violate('raises:HomogenizationModel-setter:%s:%s' % (op[2][0], got), 'a setter raised %s: %s' % (got, got.msg),
+                            dict(desc, failing_op=k, raised_at=got.site), str(got), 'setting stored')
+            apply_setting_ref(ref_objs[pid], op[2])
+            touched = set(holders(pid)); touched_pid = pid
+            for i in touched:
+                version[i] += 1; addressed_ops[i].append(op)
+            res.count('objects:op:%s:%s' % (tag, op[2][0]))
+        elif tag == 'other':
+            mid = op[1]
+            apply_other(models[mid], op[2], op[3])
+            touched = {mid}
+            version[mid] += 1; addressed_ops[mid].append(op)
+            res.count('objects:op:other:' + op[2])
+        elif tag == 'eval':
+            mid, how = op[1], op[2]
+            m = models[mid]
+            ans = model_eval(m, how)
+            touched = {mid}          # its own table fills
+            recs = node_records(th, m)
+            pid = ref_models[mid]
+            own = ref_objs[pid]
+            rows = ans if isinstance(ans, str) else ans['rows']
+            evals.append((mid, recs, rows))
+            path = 'getFluxes' if how == 'fluxes' else 'computeHomogenizationFunction'
+            res.count('objects:op:eval:' + how); res.count('objects:eval-of:%s-parameters-model' % kind_of(mid))
+            ok, wants = rows_match(rows, recs, db, own)
+            edesc = dict(desc, failing_op=k, model=mid, settings_of_model={kk: vv for kk, vv in own.items() if kk not in ('kind', 'touched')})
+            if ok is False:
+                follows = None
+                for q, other in enumerate(ref_objs):
+                    if q != pid:
+                        ok2, _ = rows_match(rows, recs, db, other)
+                        if ok2:
+                            follows = q; break
+                if isinstance(rows, str) and known_names(dict(db=db), dict(post=tuple(own['post']))) and follows is None:
+                    res.violate('raises:%s:model-history:%s' % (path, rows), 'the evaluation of model %d raised %s: %s' % (mid, rows, getattr(rows, 'msg', '')),
+                                dict(edesc, raised_at=getattr(rows, 'site', None)), str(rows), 'an answer')
+                elif follows is not None:
+                    res.violate('isolation:HomogenizationModel:%s-parameters:%s:answer-follows-settings-made-on-another-%s' % (
+                                    kind_of(mid), path, 'model' if holders(follows) else 'parameters-object'),
+                                'model %d (rule %s, factor %r, post-processing %s) answers as under the settings of parameters object %d (rule %s, factor %r, post-processing %s), '
+                                'which belongs to %s' % (mid, RULES[own['rule']], own['n'], list(own['post']), follows, RULES[ref_objs[follows]['rule']], ref_objs[follows]['n'],
+                                                          list(ref_objs[follows]['post']), ('model(s) %s' % holders(follows)) if holders(follows) else 'no model'),
+                                edesc, rows if isinstance(rows, str) else rows[:2],
+                                [[w[0] if w is not None else None for w in ws] if not isinstance(ws, str) else ws for ws in wants[:2]])
+                else:
+                    res.violate('isolation:HomogenizationModel:%s-parameters:%s:answer-differs-from-own-settings' % (kind_of(mid), path),
+                                'model %d does not answer as under the settings made on it (rule %s, factor %r, post-processing %s)' % (
+                                    mid, RULES[own['rule']], own['n'], list(own['post'])),
+                                edesc, rows if isinstance(rows, str) else rows[:2],
+                                [[w[0] if w is not None else None for w in ws] if not isinstance(ws, str) else ws for ws in wants[:2]])
+            elif ok:
+                res.count('objects:eval-matches-own-settings')
+                if any(q != pid and rows_match(rows, recs, db, o)[0] is False for q, o in enumerate(ref_objs)):
+                    res.count('objects:eval-distinguishes-own-from-other-settings')
+            # ---- per-evaluation clauses on every model of the history: bounds, sum f*M for upper Wiener
+            if not isinstance(rows, str) and rows is not None:
+                for i, ((st, mob, fr), out) in enumerate(zip(recs, rows)):
+                    if all(v is not None for rw in mob for v in rw) and own['post'][0] != 'exclude' and own['rule'] != 4:
+                        for j, v in enumerate(out):
+                            col = [rw[j] for rw in mob]
+                            lo, hi = min(col), max(col)
+                            if not (le_tol(lo, v, hi, 1e-9) and le_tol(v, hi, hi, 1e-9)):
+                                res.violate('bounds:model-history:%s-outside-min-max-of-phase-mobilities' % RULES[own['rule']].replace(' ', '-'),
+                                            'node %d of model %d: homogenized mobility outside [min, max] of the stable phases' % (i, mid), edesc, v, [lo, hi])
+                        res.count('objects:bounds-checked')
+            # ---- asked again with nothing addressed to it in between
+            prev = last.get((mid, how))
+            if prev is not None and prev[0] == version[mid]:
+                res.count('objects:model-asked-again-unchanged')
+                if not same_answer(prev[1], ans):
+                    res.violate('twice-differs-from-once:model-history:%s-parameters:%s' % (kind_of(mid), path),
+                                'model %d, asked again with no operation addressed to it or to its parameters object in between, gives another answer' % mid,
+                                edesc, None if isinstance(ans, str) else ans['rows'][:2], None if isinstance(prev[1], str) else prev[1]['rows'][:2])
+            # ---- determinism: immediately again
+            ans2 = model_eval(m, how)
+            if not same_answer(ans, ans2):
+                res.violate('twice-differs-from-once:model-history:immediately-again:%s' % path, 'model %d evaluated twice in a row gives two answers' % mid, edesc)
+            last[(mid, how)] = (version[mid], ans)
+        frame_check(k, op, touched, touched_pid)
+    # ---- a fresh model given exactly the operations addressed to A answers as A
+    for mid, m in enumerate(models):
+        pid = ref_models[mid]
+        built = next(o for o in ops if o[0] == 'model' and ops.index(o) >= 0 and o is [oo for oo in ops if oo[0] == 'model'][mid])
+        if ref_objs[pid]['kind'] == 'default':
+            f = build_model(AnalyticTherm(spec), spec, built, None)
+        else:
+            pop = [oo for oo in ops if oo[0] == 'params'][[i for i, o in enumerate(ref_objs) if o['kind'] == 'explicit'].index(pid)]
+            c = pop[1]
+            hp = HomogenizationParameters(c['rule'], labyrinthFactor=c['n'], eps=pop[2], postProcessFunction=c['post'][0],
+                                          postProcessArgs=(list(c['post'][1]) if isinstance(c['post'][1], list) else c['post'][1]))
+            f = build_model(AnalyticTherm(spec), spec, built, hp)
+        for o in addressed_ops[mid]:
+            try:
+                if o[0] == 'other':
+                    apply_other(f, o[2], o[3])
+                else:
+                    apply_setting_impl(f, o[2], True)
+            except Exception as e:      # noqa
+                _capture_raised(e)
+        for how in ('fluxes', 'direct'):
+            a, b = model_eval(m, how), model_eval(f, how)
+            res.count('objects:fresh-replay')
+            if not same_answer(a, b):
+                res.violate('isolation:HomogenizationModel:%s-parameters:%s:differs-from-fresh-model-given-the-same-calls' % (
+                                kind_of(mid), 'getFluxes' if how == 'fluxes' else 'computeHomogenizationFunction'),
+                            'model %d at the end of the history does not answer as a fresh model given exactly the %d operations addressed to it' % (mid, len(addressed_ops[mid])),
+                            dict(desc, model=mid), None if isinstance(a, str) else a['rows'][:2], None if isinstance(b, str) else b['rows'][:2])
+    # ---- the store at the end, as the implementation holds it
+    store = []
+    for hp in objs:
+        if hp is None:
+            store.append(None); continue
+        store.append(dict(rule=RULE_FUNCS.get(getattr(hp.homogenizationFunction, '__name__', ''), -1), n=float(hp.labyrinthFactor), eps=float(hp.eps),
+                          post=(POST_FUNCS.get(getattr(hp.postProcessFunction, '__name__', ''), '?'), hp.postProcessParameters[0])))
+    return dict(evals=evals, store=store, models=list(case.get('_impl_models', [])))
+
+
+def enc_setting(s, ids):
+    k = s[0]
+    if k == 'rule':
+        return '0 %d' % s[1]
+    if k == 'factor':
+        return '1 ' + f2b(s[1])
+    if k == 'post':
+        return '2 ' + enc_post((s[1], s[2]), ids)
+    return '3 ' + f2b(s[1])
+
+
+def objects_line(case, run):
+    ids = name_ids(dict(db=case['db'], stable=[]))
+    ops = [o for o in case['ops'] if o[0] != 'other']
+    parts = ['homog.objects', enc_ilist([ids[s] for s in case['db']]), f2b(DEFAULT_EPS), str(len(ops))]
+    ev = iter(run['evals'])
+    for o in ops:
+        if o[0] == 'params':
+            c = o[1]
+            parts.append('0 %d %s %s %s' % (c['rule'], f2b(c['n']), enc_post((c['post'][0], c['post'][1]), ids), f2b(o[2])))
+        elif o[0] == 'model':
+            parts.append('1 0' if o[1] is None else '1 1 %d' % o[1])
+        elif o[0] == 'set':
+            parts.append('2 %d %s' % (o[1], enc_setting(o[2], ids)))
+        elif o[0] == 'setP':
+            parts.append('3 %d %s' % (o[1], enc_setting(o[2], ids)))
+        else:
+            mid, recs, _ = next(ev)
+            sub = ['4 %d %d' % (mid, len(recs))]
+            for st, mob, fr in recs:
+                rows = to_arr(mob)
+                sub += [enc_ilist([ids[s] for s in st]), str(len(rows))] + [enc_list(rw) for rw in rows] + [enc_list(fr)]
+            parts.append(' '.join(sub))
+    return ' '.join(parts)
+
+
+def corr_objects(case, run, res, model_ans):
+    """every evaluation and the store at the end against Homog.runM (the code: a model built without parameters allocates its own object)"""
+    desc = {k: v for k, v in case.items() if not k.startswith('_')}
+    ids = name_ids(dict(db=case['db'], stable=[]))
+    t = Toks(model_ans)
+    if not t.ok:
+        res.disagree('homog.objects model error', desc, 'ok', t.err); return
+    for k, (mid, recs, rows) in enumerate(run['evals']):
+        tag = t.tok()
+        if tag == 'E':
+            err = t.tok()
+            if not (isinstance(rows, str) and rows == err):
+                res.disagree('error/value of evaluation %d (model %d)' % (k, mid), desc, rows if isinstance(rows, str) else 'values', err)
+            continue
+        n = t.nat()
+        mrows = [t.flts() for _ in range(n)]
+        if isinstance(rows, str):
+            res.disagree('error/value of evaluation %d (model %d)' % (k, mid), desc, rows, 'values'); continue
+        if rows is None:
+            continue
+        for i, ((st, mob, fr), a, b) in enumerate(zip(recs, rows, mrows)):
+            if not vlib.all_close(a, b, 1e-3 if any(v is None for rw in mob for v in rw) else 1e-7, 1e-4 * max([abs(v) for rw in mob for v in rw if v is not None] + [0.0])):
+                res.disagree('value of node %d of evaluation %d (model %d)' % (i, k, mid), desc, a, b)
+    assert t.tok() == 'M'
+    mmodels = [t.nat() for _ in range(t.nat())]
+    if mmodels != run['models']:
+        res.disagree('which parameters object each model holds (allocation order)', desc, run['models'], mmodels)
+    assert t.tok() == 'P'
+    for pid in range(t.nat()):
+        rule, n, eps = t.nat(), t.flt(), t.flt()
+        pk = t.nat()
+        post = ('none', None) if pk == 0 else ('predefined', t.nat()) if pk == 1 else ('majority', None) if pk == 2 else ('exclude', [t.nat() for _ in range(t.nat())])
+        im = run['store'][pid] if pid < len(run['store']) else None
+        if im is None:
+            continue
+        ipost = im['post']
+        iarg = ids.get(ipost[1]) if ipost[0] == 'predefined' else ([ids.get(a) for a in ipost[1]] if ipost[0] == 'exclude' else None)
+        if (im['rule'], im['n'], im['eps'], ipost[0], iarg) != (rule, n, eps, post[0], post[1]):
+            res.disagree('state of parameters object %d at the end of the history' % pid, desc, [im['rule'], im['n'], im['eps'], ipost[0], iarg], [rule, n, eps, post[0], post[1]])
+
+
+# ------------------------------------------------------------------ constructor defaults of the diffusion classes
+_REQUIRED_ARGS = {'zlim': lambda: [-1e-4, 1e-4], 'N': lambda: 5, 'elements': lambda: ['NI', 'CR', 'AL'], 'phases': lambda: ['FCC_A1', 'BCC_A2']}
+
+
+def diffusion_classes():
+    import importlib, inspect, pkgutil
+    import kawin.diffusion as pkg
+    out = []
+    for mi in pkgutil.iter_modules(pkg.__path__):
+        if mi.name == 'Plot':
+            continue
+        mod = importlib.import_module('kawin.diffusion.' + mi.name)
+        for name, cls in inspect.getmembers(mod, inspect.isclass):
+            if cls.__module__ == mod.__name__ and '__init__' in vars(cls):
+                out.append(cls)
+    return out
+
+
+def check_constructor_defaults(res):
+    """for every class of kawin.diffusion with a constructor parameter whose default is None or an instance: two objects built with the
+    defaults must not reach one mutable object (a default made once, at import time, would be shared by every object built later)"""
+    import inspect
+    for cls in diffusion_classes():
+        sig = inspect.signature(cls.__init__)
+        pars = [p for p in list(sig.parameters.values())[1:] if p.kind in (p.POSITIONAL_OR_KEYWORD, p.KEYWORD_ONLY)]
+        need = [p.name for p in pars if p.default is p.empty]
+        if any(nm not in _REQUIRED_ARGS for nm in need):
+            res.count('defaults:skipped:%s' % cls.__name__); continue
+        walked = [p.name for p in pars if p.default is not p.empty and (p.default is None or not isinstance(p.default, _IMMUTABLE + (tuple,)))]
+        desc = dict(kind='defaults', cls='%s.%s' % (cls.__module__, cls.__name__), parameters_with_None_or_instance_default=walked)
+
+        def make():
+            with np.errstate(all='ignore'), warnings.catch_warnings():
+                warnings.simplefilter('ignore')
+                return cls(**{nm: _REQUIRED_ARGS[nm]() for nm in need})
+        ok, pair = vlib.guarded(res, 'constructor-with-defaults:%s' % cls.__name__, desc, lambda: (make(), make()))
+        if not ok:
+            continue
+        a, b = pair
+        res.count('defaults:class-checked'); res.count('defaults:parameters-walked', len(walked))
+        res.case(('defaults', cls.__name__), bool(walked))
+        for p in pars:
+            if p.default is not p.empty and not isinstance(p.default, _IMMUTABLE + (tuple,)) and not _is_code(p.default):
+                # a mutable object in the signature itself: it must not be what the instance holds
+                held = [k for k, v in vars(a).items() if v is p.default]
+                if held:
+                    res.violate('constructor-default-shared:%s.%s' % (cls.__name__, held[0]),
+                                "the default of parameter '%s' of %s is one %s object made when the module is imported and every instance holds it" % (
+                                    p.name, cls.__name__, type(p.default).__name__), desc, 'held by the instance', 'a new object per instance')
+        for path in shared_mutables(a, b):
+            res.violate('constructor-default-shared:%s.%s' % (cls.__name__, path.split('[')[0]),
+                        'two %s objects built with default arguments reach the same mutable object at %s' % (cls.__name__, path), desc, path, 'distinct objects')
 
 
 # ------------------------------------------------------------------ entry points
